@@ -28,6 +28,16 @@ ADV_EXTRA = [
     "\n", "\t", "\n\n", " x=\"1\"", " xmlns:z=\"u\"", "jr:itext('x')", "jr://images/x.png", "and", " or ", " div ",
     "1 < 2 > 0", "a&b", "AT&T", "<<>>", "&&", "\\n", "%s", "{0}", "\\u0041", "`", "~", "^", "@", "!",
 ]
+# XLSForm / XPath function-name fragments: text that merely MENTIONS a function must stay text in a text cell
+FUNC_ATOMS = [
+    "pulldata('fruits', 'name', 'key', 'x')", "pulldata(", " pulldata('codes', 'label', 'code', ${a}) ", "search('zz')", "search(",
+    "indexed-repeat(", "indexed-repeat(x, y, 1)", "jr:itext('x')", "jr:itext(", "jr:choice-name(", "once(", "now()", "today()",
+    "concat('a', 'b')", "current()/..", "selected(., 'a')", "count(/data/x)", "position(..)", "randomize(", "if(", "coalesce(",
+    "jr://file-csv/x.csv", "jr://images/", "instance('x')", "instance('fruits')/root/item", "last-saved#", "${", "}",
+]
+# the ones that are lexically harmless in a cell that goes through insert_output_values (no `${`, no `instance(`:
+# those are generated as structured parts `r` / `i`)
+FUNC_ATOMS_TEXT = [a for a in FUNC_ATOMS if "${" not in a and "instance(" not in a and a != "}"]
 ATOMS = gen.ADV_ATOMS + ADV_EXTRA
 PLAIN = ["a", "b", "word", "Label", " ", "x", "1", "?", "é"]
 
@@ -44,7 +54,8 @@ def adv(rng, maxlen=6, plain=False) -> str:
     """An adversarial string: no '${' (references are separate parts), no smart quotes
     (clean_text_values replaces them by design), not blank."""
     atoms = PLAIN if plain else ATOMS
-    s = "".join(rng.choice(atoms) for _ in range(rng.randint(1, maxlen)))
+    s = "".join(rng.choice(FUNC_ATOMS_TEXT) if (not plain and rng.random() < 0.12) else rng.choice(atoms)
+                for _ in range(rng.randint(1, maxlen)))
     while "${" in s:
         s = s.replace("${", "$ {")
     if not s.strip():
@@ -131,9 +142,11 @@ def gen_parts(rng, refs, with_ref: bool, allow_instance: bool, plain=False):
 
 # ------------------------------------------------------------------ probe forms
 
-TRANSLATABLE = {"label", "hint", "guidance_hint", "constraint_message", "required_message"}
+TRANSLATABLE = {"label", "hint", "guidance_hint", "constraint_message", "required_message", "no_app_error_string"}
+# attribute channels whose value goes through insert_xpaths: a ${ref} is replaced by the xpath inside the value
+XPATH_ATTR_CHANNELS = {"no_app_error_string", "bind::foo", "bind::jr:noAppErrorString"}
 REF_CHANNELS = ["label", "hint", "guidance_hint", "constraint_message", "required_message", "choice_label", "group_label"]
-SURVEY_CHANNELS = ["label", "hint", "guidance_hint", "constraint_message", "required_message", "default",
+SURVEY_CHANNELS = ["label", "hint", "guidance_hint", "constraint_message", "required_message", "no_app_error_string", "default",
                    "appearance", "bind::foo", "body::bar"]
 ALL_CHANNELS = [*SURVEY_CHANNELS, "group_label", "choice_label", "choice_extra", "form_title", "version"]
 
@@ -191,8 +204,12 @@ def gen_probe_form(rng, langs, p_ref=0.35, plain=False, only=None, p_instance=Tr
                 if row["type"] == "note":
                     continue
                 add_probe("survey", ri, row, ch, ch, where, None, False)
+                # a default is an expression cell when dynamic: `pulldata(` there declares the csv instance by design
+                for part in probes[-1]["parts"]:
+                    part[1] = part[1].replace("pulldata(", "pulldata (")
+                row[ch] = cell_text(probes[-1]["parts"])
             else:
-                add_probe("survey", ri, row, ch, ch, where, None, False)
+                add_probe("survey", ri, row, ch, ch, where, None, ch in XPATH_ATTR_CHANNELS and rng.random() < p_ref)
         if "constraint_message" in chans and rng.random() < 0.7:
             row["constraint"] = ". != ''"
         if "required_message" in chans and rng.random() < 0.7:
@@ -397,9 +414,10 @@ def locate(doc: Doc, probe):
         return via_ref(doc.controls.get(w["xpath"]), "hint")
     if ch == "guidance_hint":
         return via_ref(doc.controls.get(w["xpath"]), "hint", "guidance")
-    if ch in ("constraint_message", "required_message"):
+    if ch in ("constraint_message", "required_message", "no_app_error_string"):
         b = doc.binds.get(w["xpath"])
-        an = "jr:constraintMsg" if ch == "constraint_message" else "jr:requiredMsg"
+        an = {"constraint_message": "jr:constraintMsg", "required_message": "jr:requiredMsg",
+              "no_app_error_string": "jr:noAppErrorString"}[ch]
         v = attr(b, an) if b else None
         if v is None:
             return ("missing", f"no {an} on bind {w['xpath']}")
@@ -497,6 +515,11 @@ def expected_chunks(parts, xpath_of):
         else:
             out.append(["o", p[1] + (f" {xpath_of[p[2]]} " if p[2] else "") + p[3]])
     return out
+
+
+def expected_attr(parts, xpath_of):
+    """an attribute value after insert_xpaths: every ${name} replaced by ` xpath `"""
+    return "".join(p[1] if p[0] == "t" else f" {xpath_of[p[1]]} " for p in parts)
 
 
 def flat(chunks):
